@@ -15,7 +15,9 @@ From TucModel Require Import Base.Bytes Base.ListX Model.Bounds Spec.Resolve Pro
   Tie.Gen_ubl_bounds_only Tie.Bridge_ubl_bounds_only Tie.Gen_ubl_is_sortable Tie.Bridge_ubl_is_sortable
   Tie.Gen_ubl_is_sorted Tie.Bridge_ubl_is_sorted Tie.Gen_ubl_has_negative_indices Tie.Bridge_ubl_has_negative_indices
   Tie.Gen_ubl_is_forward_only Tie.Bridge_ubl_is_forward_only
-  Proofs.C13 Proofs.C06 Proofs.C03Full.
+  Model.Scan Model.Regex Model.Opt Model.Stream Model.FastLane Tie.RsOpt
+  Tie.Gen_fast_try_from Tie.Bridge_fast_try_from Tie.Gen_stream_try_from Tie.Bridge_stream_try_from
+  Proofs.C13 Proofs.C06 Proofs.C03Full Proofs.C19.
 Import ListNotations.
 Local Open Scope Z_scope.
 
@@ -127,7 +129,38 @@ Qed.
 Theorem tie_sortable_spec : forall u : ublist, gen_ubl_is_sortable u = Ret (is_sortable (items u)).
 Proof. exact tie_ubl_is_sortable. Qed.
 
+(** C19 / C03: the translated [StreamOpt::try_from] accepts an option set exactly under the documented
+    conditions for -M (and never panics); C02 / C19: the translated [FastOpt::try_from] accepts exactly
+    the option sets of the fast path's domain. *)
+Theorem tie_C19_fixed_memory_eligibility : forall o : opt,
+  (exists g, gen_stream_try_from o = Ret (Some g)) <->
+  (exists d, o_delim o = [d])
+  /\ o_complement o = false /\ o_greedy o = false /\ o_compress o = false /\ o_json o = false
+  /\ o_btype o = BFields
+  /\ (o_replace o = None \/ exists r, o_replace o = Some [r])
+  /\ o_trim o = None /\ o_regex o = None /\ o_only_delimited o = false
+  /\ forward_bounds_ok (items (o_bounds o)) = true.
+Proof.
+  intros o. rewrite tie_stream_try_from. rewrite <- (C19_stream_eligibility o). unfold stream_image.
+  destruct (stream_opt o) as [so|]; split.
+  - intros _. eexists; reflexivity.
+  - intros _. eexists; reflexivity.
+  - intros [g H]. discriminate.
+  - intros [so H]. discriminate.
+Qed.
+
+Theorem tie_C02_fast_path_domain : forall o : opt,
+  (exists g, gen_fast_try_from o = Ret (Some g)) <-> fast_eligible o = true.
+Proof.
+  intros o. rewrite tie_fast_try_from. unfold fast_image. split.
+  - intros [g H]. destruct (fast_eligible o); [reflexivity | discriminate].
+  - intros H. rewrite H. unfold fast_eligible in H.
+    destruct (o_delim o) as [|d l]; [discriminate|]. eexists; reflexivity.
+Qed.
+
 Print Assumptions tie_try_into_range_spec.
+Print Assumptions tie_C19_fixed_memory_eligibility.
+Print Assumptions tie_C02_fast_path_domain.
 Print Assumptions tie_forward_only_spec.
 Print Assumptions tie_sortable_spec.
 Print Assumptions tie_unpack_spec.
